@@ -72,7 +72,7 @@ Definition target (o : op) : option nat :=
 (* producers outside the anchors: the stated hypothesis is that they store no vector under two vertex ids *)
 Definition op_ok (w : world) (o : op) : Prop :=
   match o with
-  | ONew pat _ _ _ _ => forall m' cs, build_ext (wobjs w) (wmem w) pat = Some (m', cs) -> NoDup cs
+  | ONew pat _ _ _ _ _ => forall m' cs, build_ext (wobjs w) (wmem w) pat = Some (m', cs) -> NoDup cs
   | _ => True
   end.
 
@@ -236,7 +236,7 @@ Proof.
          right; exists i, so, m', cs'; repeat split; auto using get_mesh_nth; fail).
   - (* ONew *)
     left. split; auto. cbn [step] in Hs. destruct (build_ext (wobjs w) (wmem w) pat) as [[m1 cs]|] eqn:E; [|discriminate].
-    inversion Hs; subst. exists m1, (mkobj cs e f c k).
+    inversion Hs; subst. exists m1, (mkobj cs e f c cn k).
     pose proof (Hok _ _ E) as Hnd.
     apply build_ext_spec with (O := O) in E as [Hf Hal]; [|apply wf_objs_allocated; auto].
     split; [reflexivity|split; [exact Hf|split; [exact Hnd|exact Hal]]].
@@ -245,22 +245,22 @@ Proof.
     destruct (is_mesh ao); [discriminate|].
     destruct (take O (eff from_arrays_mode) (wmem w) (ocells ao)) as [m1 cs] eqn:E. inversion Hs; subst.
     destruct (wf_nth _ _ _ Hwf Ea) as [Hnd Hal].
-    apply take_spec in E as (A & B & C & _); auto. exists m1, (mkobj cs e f c k). split; [reflexivity|split; [exact C|split; [exact A|exact B]]].
+    apply take_spec in E as (A & B & C & _); auto. exists m1, (mkobj cs e f c cn k). split; [reflexivity|split; [exact C|split; [exact A|exact B]]].
   - (* ORing *)
     left. split; auto. cbn [step] in Hs. destruct (ring_cells O (wmem w) N nc open vs) as [[m1 cs]|] eqn:E; [|discriminate].
-    inversion Hs; subst. apply ring_cells_spec in E as (A & B & C & _). exists m1, (mkobj cs e f [] 2). split; [reflexivity|split; [exact C|split; [exact A|exact B]]].
+    inversion Hs; subst. apply ring_cells_spec in E as (A & B & C & _). exists m1, (mkobj cs e f [] cn 2). split; [reflexivity|split; [exact C|split; [exact A|exact B]]].
   - (* OCopy *)
     left. split; auto. cbn [step] in Hs. destruct (get_mesh w m) as [so|] eqn:Em; [|discriminate].
     destruct (take O (if attr then copy_mode_with_attributes else copy_mode_data_only) (wmem w) (ocells so)) as [m1 cs] eqn:E.
     inversion Hs; subst. destruct (wf_nth _ _ _ Hwf (get_mesh_nth _ _ _ Em)) as [Hnd Hal].
-    apply take_spec in E as (A & B & C & _); auto. exists m1, (with_cells so cs). split; [reflexivity|split; [exact C|split; [exact A|exact B]]].
+    apply take_spec in E as (A & B & C & _); auto. exists m1, (copy_obj attr so cs). split; [reflexivity|split; [exact C|split; [exact A|exact B]]].
   - (* OMerge *)
     left. split; auto. cbn [step] in Hs. destruct ms as [|i0 mt]; [discriminate|].
     destruct (get_meshes w (i0 :: mt)) as [ins|] eqn:Eg; [|discriminate].
     destruct (merge_cells O (wmem w) ins) as [m1 cs] eqn:E.
     destruct (merge_comb merge_offset0 ins) as [[e f] c]. inversion Hs; subst.
     apply merge_cells_spec in E as (A & B & _).
-    + exists m1, (mkobj cs e f c (kind_of_data e f c)). split; [reflexivity|split; [exact B|split; [apply A|]]].
+    + exists m1, (mkobj cs e f c (merge_corn 0 0 0 ins) (kind_of_data e f c)). split; [reflexivity|split; [exact B|split; [apply A|]]].
       simpl. now apply fresh_block_allocated with (m := wmem w).
     + intros o Ho. apply wf_objs_allocated; auto. eapply get_meshes_In; eauto.
   - (* OEdit *)
